@@ -99,6 +99,9 @@ pub fn to_listing(
         listing.insert(PathBuf::from(file.name()), result);
     }
 
+
+    #[cfg(mos_verif)]
+    let listing = crate::verif_hashperm::reseat_map("listing", listing);
     Ok(listing)
 }
 
